@@ -464,7 +464,18 @@ func (ea *errAnalysis) runE1E2E4(ruleDrop, ruleSwallow, ruleLossy string, only f
 				continue
 			}
 			allInstrs(fn, func(in ssa.Instruction) {
-				if ea.lossy[fn] != "" || callCommon(in) == nil {
+				if ea.lossy[fn] != "" {
+					return
+				}
+				// a closure built here and handed to someone else to call (sort.Search, Range, …)
+				if mc, ok := in.(*ssa.MakeClosure); ok {
+					if g, ok := mc.Fn.(*ssa.Function); ok && ea.lossy[g] != "" {
+						ea.lossy[fn] = "builds lossy closure " + l.fname(g)
+						changed = true
+					}
+					return
+				}
+				if callCommon(in) == nil {
 					return
 				}
 				for _, g := range l.calleesOf(in) {
@@ -572,6 +583,13 @@ func (ea *errAnalysis) runE1E2E4(ruleDrop, ruleSwallow, ruleLossy string, only f
 			continue
 		}
 		allInstrs(fn, func(in ssa.Instruction) {
+			if mc, ok := in.(*ssa.MakeClosure); ok {
+				if g, ok := mc.Fn.(*ssa.Function); ok && ea.lossy[g] != "" {
+					key := l.fname(fn) + " ← lossy closure " + l.fname(g)
+					c.bad(ruleLossy, key, l.ipos(in), "builds "+l.fname(g)+", a closure without an error result that loses storage errors ("+ea.lossy[g]+")")
+				}
+				return
+			}
 			if callCommon(in) == nil {
 				return
 			}
